@@ -43,13 +43,14 @@ Merge(a, kw) == [key \in Keys |-> IF kw[key] # Absent THEN kw[key] ELSE a[key]]
 VARIABLES
   (* the object *)
   statefunc, init, next_task, cleanup, cleanup_reason, attrs,
+  transition,   \* "given" | "none": is a transition callback installed (constructor argument)
   (* the thread executing cycle(): program counter and locals *)
   pc, outer, loops, ret, bret, rsn, site, cfn, nsarg, nssite, action,
   (* requirement ghosts (one bit each): *)
   fresh,   \* no call of statefunc has been made since it was entered
   seen     \* the pending task was already pending when a cycle began
 
-obj    == <<statefunc, init, next_task, cleanup, cleanup_reason, attrs>>
+obj    == <<statefunc, init, next_task, cleanup, cleanup_reason, attrs, transition>>
 locals == <<pc, outer, loops, ret, bret, rsn, site, cfn, nsarg, nssite, action>>
 vars   == <<obj, locals, fresh, seen>>
 
@@ -64,17 +65,22 @@ InitKws == IF Construct THEN {NoKw} \cup {[key \in Keys |-> IF key = k THEN Init
                         ELSE {NoKw}
 InitTasks == IF Construct THEN {NoTask} \cup {StartTask(s, NoKw, NoneS) : s \in StartStates} ELSE {NoTask}
 
-InitWith(kw, task) == /\ statefunc = NoneS /\ init = TRUE /\ next_task = task /\ cleanup = NoneS
-                      /\ cleanup_reason = NoneS /\ attrs = kw
-                      /\ LocalsInit /\ fresh = TRUE /\ seen = FALSE
-Init == \E kw \in InitKws, task \in InitTasks : InitWith(kw, task)
+(* optional callbacks are arguments of the construction: transition=<hook> and (as a plain    *)
+(* attribute, in force until the first start request is taken) cleanup=<function>             *)
+InitCleanups == IF Construct THEN Cleanups ELSE {NoneS}
+InitTransitions == IF Construct THEN {"given", "none"} ELSE {"given"}
+
+InitWith(kw, task, c, tr) == /\ statefunc = NoneS /\ init = TRUE /\ next_task = task /\ cleanup = c
+                             /\ cleanup_reason = NoneS /\ attrs = kw /\ transition = tr
+                             /\ LocalsInit /\ fresh = TRUE /\ seen = FALSE
+Init == \E kw \in InitKws, task \in InitTasks, c \in InitCleanups, tr \in InitTransitions : InitWith(kw, task, c, tr)
 
 (* ---------------------------------------------------------------- start() / stop() *)
 Post(task) ==
     /\ Concurrent \/ pc = "idle"
     /\ next_task' = task
     /\ seen' = FALSE
-    /\ UNCHANGED <<statefunc, init, cleanup, cleanup_reason, attrs, locals, fresh>>
+    /\ UNCHANGED <<transition, statefunc, init, cleanup, cleanup_reason, attrs, locals, fresh>>
 
 (* start(statefunc, **kwds) with a keyword that is a class attribute of StateMachine (init, *)
 (* statefunc, now, next_task, cleanup_reason, ...): "class attributes are not allowed to be   *)
@@ -137,14 +143,14 @@ AfterCall == \* self.init = False; dispatch on Retry / Finish / non-callable / n
                                       /\ UNCHANGED <<outer, loops, ret, bret, cfn, nsarg, nssite, action>>
          [] bret.k = "next"   -> /\ ret' = bret.s /\ pc' = "chk_ret"
                                  /\ UNCHANGED <<outer, loops, bret, rsn, site, cfn, nsarg, nssite, action>>
-    /\ UNCHANGED <<statefunc, next_task, cleanup, cleanup_reason, attrs, fresh, seen>>
+    /\ UNCHANGED <<transition, statefunc, next_task, cleanup, cleanup_reason, attrs, fresh, seen>>
 
 (* _cleanup(reason) *)
 ClReason == \* if self.cleanup_reason is None: self.cleanup_reason = reason
     /\ pc = "cl_reason"
     /\ cleanup_reason' = IF cleanup_reason = NoneS THEN rsn ELSE cleanup_reason
     /\ pc' = "cl_chk"
-    /\ UNCHANGED <<statefunc, init, next_task, cleanup, attrs, outer, loops, ret, bret, rsn, site, cfn,
+    /\ UNCHANGED <<transition, statefunc, init, next_task, cleanup, attrs, outer, loops, ret, bret, rsn, site, cfn,
                    nsarg, nssite, action, fresh, seen>>
 
 AfterCleanup == IF site = "tm" THEN "tm_ret" ELSE "chk_ret"
@@ -158,7 +164,7 @@ ClChk ==   \* if not self.cleanup: return None
 ClTake ==  \* with self._lock: cleanup, self.cleanup = self.cleanup, None
     /\ pc = "cl_take"
     /\ cfn' = cleanup /\ cleanup' = NoneS /\ pc' = "cl_call"
-    /\ UNCHANGED <<statefunc, init, next_task, cleanup_reason, attrs, outer, loops, ret, bret, rsn, site,
+    /\ UNCHANGED <<transition, statefunc, init, next_task, cleanup_reason, attrs, outer, loops, ret, bret, rsn, site,
                    nsarg, nssite, action, fresh, seen>>
 
 ClCall(b) == \* ret = cleanup(self); not callable -> None; raises -> None
@@ -186,15 +192,20 @@ Fin ==     \* self._new_state(None)
     /\ UNCHANGED <<obj, outer, loops, ret, bret, rsn, site, cfn, action, fresh, seen>>
 
 (* _new_state(statefunc) *)
-NsHook ==  \* if self.transition: self.transition(self, statefunc)
-    /\ pc = "ns_hook"
+NsHook ==  \* if self.transition: self.transition(self, statefunc)          (the callback is called)
+    /\ pc = "ns_hook" /\ transition = "given"
+    /\ pc' = "ns_init"
+    /\ UNCHANGED <<obj, outer, loops, ret, bret, rsn, site, cfn, nsarg, nssite, action, fresh, seen>>
+
+NsNoHook == \* ... no callback installed: nothing is called; init is re-armed all the same
+    /\ pc = "ns_hook" /\ transition = "none"
     /\ pc' = "ns_init"
     /\ UNCHANGED <<obj, outer, loops, ret, bret, rsn, site, cfn, nsarg, nssite, action, fresh, seen>>
 
 NsInit ==  \* self.init = True
     /\ pc = "ns_init"
     /\ init' = TRUE /\ pc' = "ns_sf"
-    /\ UNCHANGED <<statefunc, next_task, cleanup, cleanup_reason, attrs, outer, loops, ret, bret, rsn, site,
+    /\ UNCHANGED <<transition, statefunc, next_task, cleanup, cleanup_reason, attrs, outer, loops, ret, bret, rsn, site,
                    cfn, nsarg, nssite, action, fresh, seen>>
 
 NsSf ==    \* self.statefunc = statefunc
@@ -205,7 +216,7 @@ NsSf ==    \* self.statefunc = statefunc
                [] nssite = "tm"   -> "outer"       \* continue
                [] nssite = "fin"  -> "chk_task"
                [] nssite = "act"  -> "upd"
-    /\ UNCHANGED <<init, next_task, cleanup, cleanup_reason, attrs, outer, loops, ret, bret, rsn, site,
+    /\ UNCHANGED <<transition, init, next_task, cleanup, cleanup_reason, attrs, outer, loops, ret, bret, rsn, site,
                    cfn, nsarg, nssite, action, seen>>
 
 ChkTask == \* if self.next_task:
@@ -216,13 +227,13 @@ ChkTask == \* if self.next_task:
 Pop ==     \* with self._lock: action, self.next_task = self.next_task, None
     /\ pc = "pop"
     /\ action' = next_task /\ next_task' = NoTask /\ seen' = FALSE /\ pc' = "clr_reason"
-    /\ UNCHANGED <<statefunc, init, cleanup, cleanup_reason, attrs, outer, loops, ret, bret, rsn, site, cfn,
+    /\ UNCHANGED <<transition, statefunc, init, cleanup, cleanup_reason, attrs, outer, loops, ret, bret, rsn, site, cfn,
                    nsarg, nssite, fresh>>
 
 ClrReason == \* self.cleanup_reason = None
     /\ pc = "clr_reason"
     /\ cleanup_reason' = NoneS /\ pc' = "act"
-    /\ UNCHANGED <<statefunc, init, next_task, cleanup, attrs, outer, loops, ret, bret, rsn, site, cfn,
+    /\ UNCHANGED <<transition, statefunc, init, next_task, cleanup, attrs, outer, loops, ret, bret, rsn, site, cfn,
                    nsarg, nssite, action, fresh, seen>>
 
 Act ==     \* if isinstance(action, Start): self._new_state(action.newstate)
@@ -237,11 +248,11 @@ Upd ==     \* self._update_attributes(action.kwds)       (kwds always contain 'c
     /\ attrs' = Merge(attrs, action.kw)
     /\ cleanup' = action.c
     /\ action' = NoTask /\ pc' = "outer"
-    /\ UNCHANGED <<statefunc, init, next_task, cleanup_reason, outer, loops, ret, bret, rsn, site, cfn,
+    /\ UNCHANGED <<transition, statefunc, init, next_task, cleanup_reason, outer, loops, ret, bret, rsn, site, cfn,
                    nsarg, nssite, fresh, seen>>
 
 Silent == \/ Outer \/ Loop \/ ChkIntr \/ IntrArg \/ AfterCall \/ ClReason \/ ClChk \/ ClTake
-          \/ ChkRet \/ TmRet \/ Fin \/ NsInit \/ NsSf \/ ChkTask \/ Pop \/ ClrReason \/ Act \/ Upd
+          \/ ChkRet \/ TmRet \/ Fin \/ NsNoHook \/ NsInit \/ NsSf \/ ChkTask \/ Pop \/ ClrReason \/ Act \/ Upd
 
 CycleStep == \/ CycleBegin \/ Silent \/ NsHook
              \/ \E b \in StateBeh : Call(b)
@@ -262,7 +273,7 @@ InCleanupFn == pc \in {"cl_reason", "cl_chk", "cl_take", "cl_call"}
 TypeOK == /\ statefunc \in States \cup {NoneS} /\ init \in BOOLEAN
           /\ next_task \in Posts \cup {NoTask}
           /\ cleanup \in Cleanups /\ cleanup_reason \in {NoneS, "start", "stop", "error"}
-          /\ attrs \in [Keys -> Vals \cup {Absent, InitVal}] /\ pc \in PCs
+          /\ attrs \in [Keys -> Vals \cup {Absent, InitVal}] /\ pc \in PCs /\ transition \in {"given", "none"}
 
 (* one cycle is bounded: both loops are bounded, cycle() has no exit by exception     *)
 (* ("raised" is not a label); termination itself is the temporal property CycleEnds   *)
